@@ -939,7 +939,9 @@ class Executor:
                     return self.eval_promoted(m.group(1), int(m.group(2)), st, self.prog.promoted[direct])
             return self.eval_promoted(m.group(1), int(m.group(2)), st)
         # integer MAX/MIN etc
-        m = re.match(r'^core::num::<impl (\w+)>::(MAX|MIN|BITS)$', name)
+        m = re.match(r'^(?:core::num::<impl (\w+)>|(u8|u16|u32|u64|u128|usize|i8|i16|i32|i64|i128|isize))::(MAX|MIN|BITS)$', name)
+        if m:
+            m = re.match(r'^(\w+) (\w+)$', '%s %s' % (m.group(1) or m.group(2), m.group(3)))
         if m:
             w, s = INT_TYPES[m.group(1)]
             if m.group(2) == 'BITS':
